@@ -5,7 +5,7 @@ import msref, refserver, corr_client
 
 RULE = ("call histories over the public API against the reference server: before connect, after a failed connect / failed authentication, "
         "after success, re-connect after success (with and without STARTTLS on either connection, after logout / a command / a dropped connection); connect(starttls=True) × server behaviour at each handshake step (OK / NO / BYE / "
-        "silence), handshake failure, STARTTLS not announced, differing pre-/post-TLS SASL lists, plaintext injected behind the STARTTLS "
+        "silence), handshake failure, STARTTLS not announced, differing pre-/post-TLS SASL lists (other mechanism, empty, no SASL line at all, look-alike names), plaintext injected behind the STARTTLS "
         "reply; the write log (channel-tagged) is checked by the oracle; each step is replayed on the Lean model; statically (kernel-"
         "checked on the regenerated method table): every Client method sending a script verb carries @authentication_required; "
         "non-trivial = history with ≥ 2 calls")
@@ -91,7 +91,7 @@ def run(ctx):
     for fault in (None, "NO", "BYE", "SILENT"):
         for tlsok in (True, False):
             for cap in (True, False):
-                for post in (None, b"LOGIN", b"", b"GSSAPI"):
+                for post in (None, b"LOGIN", b"", b"GSSAPI", False, b"PLAIN-CLIENTTOKEN GSSAPI", b"XLOGIN-TOKEN X-PLAIN-SUBMIT"):
                     variants.append((fault, tlsok, cap, post))
     for fault, tlsok, cap, post in variants:
         srv = refserver.RefServer(r, starttls=cap, sasl=b"PLAIN", post_tls_sasl=post, faults=({"STARTTLS": fault} if fault else {}))
@@ -109,6 +109,8 @@ def run(ctx):
             probs.append("connect succeeded although STARTTLS was %s" % ("refused/failed" if cap else "not announced"))
         if not (fault is None and tlsok and cap) and any(v == "AUTHENTICATE" for _, v, _ in verbs_written(s.wire.writes)):
             probs.append("credentials sent although the TLS handshake did not complete")
+        if any("unannounced mechanism" in l for l in srv.log):
+            probs.append("AUTHENTICATE with a mechanism the server did not announce after the handshake: %r" % srv.log)
         if should_succeed and post == b"LOGIN" and getattr(srv, "auth_attempt", (None,))[0] != "LOGIN":
             probs.append("mechanism not taken from the post-TLS capabilities (server announced LOGIN after TLS): %r" % (getattr(srv, "auth_attempt", None),))
         for p in probs:
